@@ -449,21 +449,26 @@ NONMAP = [5, None, "abc", [1], 1.5]
 
 
 class NestedInput(symval.Node):
-    """outer tag in {poly, a, zz, absent}, inner tag in {tri, zz, absent}; whether Tri exists before the first call"""
+    """outer tag in {poly, a, zz, absent}, inner tag in {a (Tri's), zz, absent}; when the first call happens: never before the
+    lookup (0), after the nested root exists but before Tri (1), before the nested root itself is defined (2); whether the
+    lookup goes through the outer root or straight through the nested root's own from_dict"""
 
     def __init__(self, ctx):
         self.outer = ctx.sel(4)
         self.inner = ctx.sel(3)
-        self.late = ctx.new("b", "bool")
+        self.late = ctx.sel(3)
+        self.direct = ctx.new("b", "bool")
         self.x = ctx.new("i", "int")
         self.root = ctx.sel(len(NONMAP) + 1)  # 0: a dict as described above; k > 0: the non-mapping root NONMAP[k - 1]
 
     def make(self, env):
-        return pick(env[self.outer], 4), pick(env[self.inner], 3), bool(env[self.late]), pick(env[self.root], len(NONMAP) + 1)
+        return (pick(env[self.outer], 4), pick(env[self.inner], 3), pick(env[self.late], 3), pick(env[self.root], len(NONMAP) + 1),
+                bool(env[self.direct]))
 
 
 def build_nested(style, late):
-    """QBase(type) <- QA('a'), QBase <- QPoly('poly', its own Config discriminator on 'kind') <- QTri(kind 'tri')"""
+    """QBase(type) <- QA('a'), QBase <- QPoly('poly', its own Config discriminator on 'kind') <- QTri(kind 'a'): the inner
+    leaf carries the same tag VALUE as the outer sibling QA, so registries that are not kept apart show"""
     ns = lambda q, **kw: dict({"__module__": __name__, "__qualname__": q}, **kw)
     mb = (DataClassDictMixin,)
     disc = Discriminator(field="type", include_subtypes=True)
@@ -475,8 +480,6 @@ def build_nested(style, late):
     globals()["QBase"] = Base
     A = dataclasses.make_dataclass("QA", [("type", str, F(default="a"))], bases=(Base,), namespace=ns("QA"))
     globals()["QA"] = A
-    Poly = dataclasses.make_dataclass("QPoly", [("type", str, F(default="poly"))], bases=(Base,), namespace=ns("QPoly", Config=cfg_k))
-    globals()["QPoly"] = Poly
     if style == "config":
         dec = Base.from_dict
     elif style == "annotated":
@@ -485,26 +488,38 @@ def build_nested(style, late):
         dec = lambda d: H.from_dict({"v": d}).v
     else:
         dec = BasicDecoder(typing.Annotated[Base, disc]).decode
-    if late:
+
+    def warm():
         try:
             dec({"type": "a", "x": 1})
         except Exception:
             pass
-    Tri = dataclasses.make_dataclass("QTri", [("kind", str, F(default="tri"))], bases=(Poly,), namespace=ns("QTri"))
+
+    if late == 2:
+        warm()  # the outer registry is filled before the nested root exists
+    Poly = dataclasses.make_dataclass("QPoly", [("type", str, F(default="poly"))], bases=(Base,), namespace=ns("QPoly", Config=cfg_k))
+    globals()["QPoly"] = Poly
+    if late == 1:
+        warm()
+    Tri = dataclasses.make_dataclass("QTri", [("kind", str, F(default="a"))], bases=(Poly,), namespace=ns("QTri"))
     globals()["QTri"] = Tri
-    return {"A": A, "Tri": Tri}, dec
+    return {"A": A, "Tri": Tri, "Poly": Poly}, dec
 
 
 def nested_main(S, env):
-    outer, inner, late, root = S.node.make(env)
+    outer, inner, late, root, direct = S.node.make(env)
     with notrace():
         classes, dec = build_nested(S.fam_args["style"], late)
         d = {"x": 5}
         if outer < 3:
             d["type"] = ("poly", "a", "zz")[outer]
         if inner < 2:
-            d["kind"] = ("tri", "zz")[inner]
-        if outer == 3:
+            d["kind"] = ("a", "zz")[inner]
+        if direct:
+            # the nested root's own entry point: only its own discriminator matters
+            dec = classes["Poly"].from_dict
+            want = (classes["Tri"], "notfound", "missing")[inner]
+        elif outer == 3:
             want = "missing"
         elif outer == 2:
             want = "notfound"
@@ -525,11 +540,17 @@ def nested_main(S, env):
             return True
         if isinstance(want, type):
             if st != "ok" or type(r) is not want:
-                return fail("C12/nested-root:wrong-result", input=d, got=r, want=want.__name__, late=late)
+                return fail("C12/nested-root:wrong-result", input=d, got=r, want=want.__name__, late=late, direct=direct)
         else:
             exp = MissingDiscriminatorError if want == "missing" else SuitableVariantNotFoundError
             if st == "ok" or type(r) is not exp:
-                return fail("C12/nested-root:wrong-exception:%s-for-%s" % (type(r).__name__, want), input=d, got=r, late=late)
+                return fail("C12/nested-root:wrong-exception:%s-for-%s" % (type(r).__name__, want), input=d, got=r, late=late,
+                            direct=direct)
+        if not direct and not root:
+            # afterwards the outer root still resolves its own sibling
+            st2, r2 = call(dec, {"type": "a", "x": 2})
+            if st2 != "ok" or type(r2) is not classes["A"]:
+                return fail("C12/nested-root:outer-registry-polluted", got=r2, late=late)
     return True
 
 
@@ -543,8 +564,8 @@ def main(S, env):
 
 def twin(S, env):
     if S.variant == "nested":
-        outer, inner, late, root = S.node.make(env)
-        if not (outer == 0 and inner == 0 and late and root == 0):
+        outer, inner, late, root, direct = S.node.make(env)
+        if not (outer == 0 and inner == 0 and late == 2 and root == 0 and not direct):
             return True
         return not main(S, env)
     if S.variant == "nofield":
